@@ -263,10 +263,26 @@ func buildBook(dir, file string, format openingbook.BookFormat, useCache bool) (
 	}
 }
 
+// snapshotOf reads the book's entries under the book's own lock; a lock that an earlier
+// operation never released makes this wait for ever: the run ends with that as the violation.
 func snapshotOf(b *openingbook.Book) bookSnapshot {
 	s := bookSnapshot{}
-	for k, e := range b.VerifEntries() {
-		s[k] = e.Counter
+	done := make(chan struct{})
+	go func() {
+		for k, e := range b.VerifEntries() {
+			s[k] = e.Counter
+		}
+		close(done)
+	}()
+	select {
+	case <-done:
+	case <-time.After(20 * time.Second):
+		in := lastInput
+		if in == nil {
+			in = map[string]interface{}{}
+		}
+		lastReport.Violate("book-lock-never-released", in, "reading the book after Initialize returned did not finish within 20 s: the book's lock is still held by a finished operation")
+		os.Exit(lastReport.Emit())
 	}
 	return s
 }
@@ -441,6 +457,32 @@ func c20Monitor(args []string) int {
 		}
 		variants = append(variants, []byte("garbage that is not gob"))
 		names = append(names, "garbage")
+		// the cache path cannot be read as a file nor be re-created (a directory stands there): initialisation
+		// still yields the source-built book, also when repeated in the same process
+		{
+			os.Remove(cache)
+			os.Mkdir(cache, 0755)
+			in := map[string]interface{}{"collection": c, "variant": "cache-path-is-a-directory", "seed": seed}
+			setCurrent(in)
+			rep.Cases++
+			for round := 0; round < 2; round++ {
+				b, err, hung := buildBook(dir, "book.txt", openingbook.San, true)
+				if hung {
+					os.Remove(cache)
+					rep.Violate("cache-damaged-hangs", in, fmt.Sprintf("Initialize did not return within 30 s (round %d)", round))
+					return rep.Emit()
+				}
+				if err != nil {
+					rep.Violate("cache-damaged-error", in, err.Error())
+					break
+				}
+				if d := diffSnap(exp, snapshotOf(b)); d != "" {
+					rep.Violate("cache-damaged-wrong-book", in, d)
+					break
+				}
+			}
+			os.Remove(cache)
+		}
 		for vi, v := range variants {
 			ioutil.WriteFile(cache, v, 0644)
 			rep.Cases++
@@ -542,6 +584,7 @@ func c19Cases(args []string) int {
 		}
 		sb.WriteString("], [")
 		first := true
+		_ = snapshotOf(b) // watchdog: a lock left held ends the run with a violation instead of a hang
 		for k, e := range b.VerifEntries() {
 			if !first {
 				sb.WriteString("; ")
